@@ -4,6 +4,7 @@ package enum
 
 import (
 	"runtime"
+	"runtime/debug"
 	"sync"
 	"sync/atomic"
 )
@@ -15,6 +16,24 @@ func Workers() int {
 		n = 16
 	}
 	return n
+}
+
+// OnPanic, when set, receives a panic that escaped f(i) in Parallel together
+// with its stack; it returns true when it has dealt with it (the item counts as
+// done), false to let the panic continue.
+var OnPanic func(i int, r interface{}, stack []byte) bool
+
+func call(f func(int), i int) {
+	if OnPanic != nil {
+		defer func() {
+			if r := recover(); r != nil {
+				if !OnPanic(i, r, debug.Stack()) {
+					panic(r)
+				}
+			}
+		}()
+	}
+	f(i)
 }
 
 // Parallel calls f(i) for every i in [0,n), on Workers() goroutines. The union
@@ -36,7 +55,7 @@ func Parallel(n int, stop func() bool, f func(i int)) (done int64) {
 				if stop != nil && stop() {
 					return
 				}
-				f(int(i))
+				call(f, int(i))
 				atomic.AddInt64(&cnt, 1)
 			}
 		}()
